@@ -19,6 +19,11 @@ type Case = rtreekit.History
 
 func gen(t *rapid.T) Case {
 	h := rtreekit.GenHistory(t, "nn")
+	if rapid.IntRange(0, 299).Draw(t, "wide") == 77 {
+		h = rtreekit.History{Kind: "point", Max: rapid.SampledFrom([]int{66, 80, 100, 128}).Draw(t, "widemax"), Min: rapid.SampledFrom([]int{2, 2, 10, 30}).Draw(t, "widemin"),
+			Wide: rapid.IntRange(1500, 3000).Draw(t, "widen"), WideG: rapid.SampledFrom([]float64{1.1, 1.2, 1.3}).Draw(t, "wideg"), WideSeed: rapid.Uint64().Draw(t, "wideseed")}
+		return h
+	}
 	if rapid.IntRange(0, 3).Draw(t, "insertonly") == 0 {
 		// insert-only histories keep C12 independent of anything delete does
 		var ops []rtreekit.Op
@@ -277,7 +282,93 @@ func exploit(m *rtreekit.Model, st rtreekit.Stale) (msg string, removed int) {
 	return "", removed
 }
 
+// runWide: see History.Wide.
+func runWide(c Case) (v vkit.Verdict) {
+	v.Class("wide_nodes_with_overlapping_children")
+	v.NonTrivial = true
+	var pts []geom.Point
+	for i := -c.Wide; i <= c.Wide; i++ {
+		x, y := math.Pow(c.WideG, float64(i)), math.Pow(c.WideG, float64(-i))
+		pts = append(pts, geom.Point{X: x, Y: y}, geom.Point{X: -x, Y: y}, geom.Point{X: x, Y: -y}, geom.Point{X: -x, Y: -y})
+	}
+	s := c.WideSeed
+	next := func() uint64 {
+		s += 0x9e3779b97f4a7c15
+		z := s
+		z = (z ^ (z >> 30)) * 0xbf58476d1ce4e5b9
+		z = (z ^ (z >> 27)) * 0x94d049bb133111eb
+		return z ^ (z >> 31)
+	}
+	for i := len(pts) - 1; i > 0; i-- {
+		j := int(next() % uint64(i+1))
+		pts[i], pts[j] = pts[j], pts[i]
+	}
+	tree := rtree.NewTree(c.Min, c.Max)
+	for _, p := range pts {
+		tree.Insert(p)
+	}
+	root, _ := tree.VerifSnapshot()
+	widest := 0
+	var walk func(n *rtree.VerifNode)
+	walk = func(n *rtree.VerifNode) {
+		if n == nil || n.Leaf {
+			return
+		}
+		if len(n.Boxes) > widest {
+			widest = len(n.Boxes)
+		}
+		for _, ch := range n.Children {
+			walk(ch)
+		}
+	}
+	walk(root)
+	if widest > 64 {
+		v.Class("a_node_with_more_than_64_children")
+	}
+	for q := 0; q < 400; q++ {
+		t := 0.05 + 4*float64(next()>>11)/(1<<53)
+		var p geom.Point
+		switch q % 4 {
+		case 0:
+			p = geom.Point{X: 0, Y: t}
+		case 1:
+			p = geom.Point{X: t, Y: 0}
+		case 2:
+			p = geom.Point{X: 0, Y: -t}
+		default:
+			p = geom.Point{X: (float64(next()>>11)/(1<<53) - 0.5) * 0.2, Y: (float64(next()>>11)/(1<<53) - 0.5) * 4}
+		}
+		best := math.Inf(1)
+		for _, o := range pts {
+			if d := math.Hypot(o.X-p.X, o.Y-p.Y); d < best {
+				best = d
+			}
+		}
+		var got geom.Geom
+		if pn := vkit.Catch(func() {
+			if q%2 == 0 {
+				got = tree.NearestNeighbor(p)
+			} else {
+				got = tree.NearestNeighbors(1, p)[0]
+			}
+		}); pn != "" {
+			return v.Fail("k = 1 query from %v on a tree of %d points (fan-out %d) panicked: %s", p, len(pts), c.Max, pn)
+		}
+		gp, ok := got.(geom.Point)
+		if !ok {
+			return v.Fail("k = 1 query from %v on a tree of %d points (fan-out %d) returned %v", p, len(pts), c.Max, got)
+		}
+		if d := math.Hypot(gp.X-p.X, gp.Y-p.Y); vkit.Off(d-best, 1e-12*math.Max(1, best)) {
+			return v.Fail("k = 1 query from %v on a tree of %d points hugging the axes (fan-out %d, widest node %d children): returned a point at distance %v, the nearest one is at %v", p, len(pts), c.Max, widest, d, best)
+		}
+	}
+	return v
+}
+
 func run(c Case) (v vkit.Verdict) {
+	if c.Wide > 0 {
+		return runWide(c)
+	}
 	m := rtreekit.NewModel(c)
 	var ev rtreekit.Events
 	v.Class("kind_" + c.Kind)
